@@ -289,7 +289,7 @@ EDITS = {
     "primitive": ["param_set", "param_inplace", "transform_inplace", "apply_transform", "apply_scale", "meta_nested", "density", "apply_translation"],
     "path2d": ["v_item", "entity_points", "entity_color", "entity_layer", "apply_transform", "meta_nested", "entity_reverse", "v_iadd", "vattr_item"],
     "path3d": ["v_item", "entity_points", "entity_color", "entity_layer", "apply_transform", "meta_nested", "v_iadd", "vattr_item"],
-    "points": ["v_item", "color_item", "apply_transform", "meta_nested", "v_iadd"],
+    "points": ["v_item", "color_item", "apply_transform", "meta_nested", "v_iadd", "assign_fewer", "color_single"],
     "scene": ["edge_update", "geom_v_item", "geom_transform", "add_geometry", "delete_geometry", "meta_nested", "graph_setitem", "geom_color", "edge_meta_inplace", "geom_color_other", "camera_param", "camera_move", "light_param"],
     "voxel": ["apply_transform", "apply_scale", "transform_inplace", "meta_nested", "encoding_item"],
 }
@@ -459,6 +459,13 @@ def apply_edit(kind, o, e):
             if o.colors is None or len(o.colors) != n:
                 raise Inapplicable()
             o.colors[i % n] = [1, 2, 3, 255]
+        elif k == "assign_fewer":
+            if n < 4:
+                raise Inapplicable()
+            o.vertices = np.array(o.vertices)[: n - 2]
+        elif k == "color_single":
+            # one colour for the whole cloud: as many rows as the cloud has points NOW
+            o.colors = [i % 256, 2, 3, 255]
         elif k == "apply_transform":
             o.apply_transform(M)
         else:
@@ -699,7 +706,9 @@ class C17(World):
                     for e in pre_edits:
                         apply_edit(kind, twin_o, e)
                         apply_edit(kind, twin_c, e)
-                    quiet = bool(op.get("quiet")) and not any(e["edit"] in ("color_other_item", "geom_color_other", "color_item", "geom_color") for e in pre_edits)
+                    # (one in-place colour edit before a quiet copy is fine; with two of them the lazily promoted colours of
+                    #  ColorVisuals depend on what was read in between - a read-history question, see DESIGN section 9)
+                    quiet = bool(op.get("quiet")) and sum(e["edit"] in ("color_other_item", "geom_color_other", "color_item", "geom_color") for e in pre_edits) <= 1
                     if not quiet:
                         self._eq(ctx, kind, twin_o, orig, "harness", "twin-vs-original")
                     # (quiet: nothing is read from the original between its last edit and the copy, so a copy that hands over
